@@ -155,7 +155,11 @@ def ob_select_race(report, prop):
             k(q, Agg('Poll', 'Pending', ()))
         ex = e2.executor('anemo', [(r'thread_rng_n$', m_rng), (r' as Future>::poll$', m_poll)], max_depth=2, unroll=3)
         parent = find_method(ex.prog, 'BiStreamRequestHandler', 'do_handle')
-        fn = find_closure(ex.prog, parent, [0, 0])
+        # the poll closure of the `tokio::select!` expansion: the (only) closure under do_handle that draws the random start index
+        cands = e2.find_closures_calling(ex.prog, parent, r'thread_rng_n$')
+        if len(cands) != 1:
+            raise NotFound(f'select! poll closure under do_handle: {len(cands)} candidates')
+        fn = cands[0]
         p = Path()
         p.mem[('H', 'disabled', 'u8')] = z3.BitVecVal(0, 8)
         env = Agg('{closure}', None, (Ptr(('H', 'disabled', 'u8'), (), True), Ptr(('H', 'futs', '(Oneshot, Stopped)'), (), True)), 'closure')
